@@ -86,6 +86,11 @@ claim("C19", "Sibling/key agreement: WritePreparedMessage's compress flag is tru
       "NewPreparedMessage re-points data at its own rendered copy; the frame cache is accessed under the mutex and read only after once.Do; the cached frame goes through Conn.write (C09 protocol incl. close-sent recording). Decoded equality is NOT decided.",
       NOTE, "sibling-guard agreement by path enumeration + transitive field-effect (mod-set) analysis + lockset (go/ssa)", "DESIGN.md §4 C19")
 
+claim("C11", "Static race freedom under the documented contract: the transitive field effects (mod/ref sets over the in-package call graph, dynamic calls resolved by store-sets) of reader-side, writer-side and any-goroutine functions conflict only on construction-only fields or on writeErr, whose every access is inside writeErrMu; package variables are init-only; "
+      "each critical section of Conn.mu performs exactly one transport write covering the whole frame and sections never nest; nothing blocks under a sync.Mutex; every WriteControl path that gives up without the lock has touched nothing; Close touches only the transport; pooled objects are forgotten when returned; the PreparedMessage cache is mutex/once protected. "
+      "Latency ('by that deadline'), fairness and races inside net.Conn implementations are NOT decided.",
+      NOTE, "field-effect partition (mod/ref) + lockset + one-write-per-section ordering analysis (go/ssa)", "DESIGN.md §4 C11")
+
 REASON_NOT_BUILT = "rules for this property are not built yet in this revision (see DESIGN.md §4 for the planned static rules); nothing is claimed"
 
 def main():
